@@ -2,6 +2,7 @@ import SJ.Drv.Base
 import SJ.Spec.Image
 import SJ.Spec.Recognise
 import SJ.Model.Ser
+import SJ.Model.Display
 /-!
 # C03 driver handlers
 
@@ -29,7 +30,9 @@ the token (the executable specification then checks that text to be a JSON numbe
 `Spec.Number.decimal`.
 
 Operations: `serc p`, `serp indent p`, `serbufs fmt p`, `serbufx fmt p` (ill-hinted programs: model
-comparison only), `disp value floattable`.
+comparison only), `disp value floattable`, `dispf value floattable alt budget` (`write!(sink, "{}" / "{:#}", v)`
+into a `fmt::Write` that accepts whole fragments within a byte budget; observation
+`OK|ERR '|' count '|' frag,… '|' to_string(_pretty) text`), `dispn number floattable` (`Display for Number`).
 -/
 namespace SJ.Drv.C03
 open SJ SJ.Drv SJ.Spec SJ.Spec.Grammar SJ.Spec.Denote SJ.Spec.Image SJ.Model.Ser
@@ -298,8 +301,14 @@ def disp : Handler := fun args impl =>
     match decodeJV ve, decodeFloatTable te with
     | some v, some tb =>
       let ext := extOf tb
-      let c := hexOrErr (display ext v)
-      let p := hexOrErr (displayAlt ext v)
+      -- `format!` through the adapter model (`Model.Display.format`); `to_string` / `to_string_pretty` below
+      let fm := fun (alt : Bool) => match Model.Display.format ext v alt with
+        | some t => hexField t
+        | none => "ERR:fmt::Error"
+      let c := fm false
+      let p := fm true
+      let c' := hexOrErr ((Model.Display.toString ext v).map fun t => [t])
+      let p' := hexOrErr ((Model.Display.toStringPretty ext v).map fun t => [t])
       let spec :=
         match impl.splitOn "|" with
         | [d1, d2, s1, s2] =>
@@ -311,11 +320,100 @@ def disp : Handler := fun args impl =>
             | _, some m => some ("to_string_pretty: " ++ m)
             | none, none => none
         | _ => some "malformed observation"
-      { model := s!"{c}|{p}|{c}|{p}", spec := spec }
+      { model := s!"{c}|{p}|{c'}|{p'}", spec := spec }
+    | _, _ => bad "decode"
+  | _ => bad "arity"
+
+/-- `count|frag,frag,…` (`-` for none; an empty fragment is `-` too, hence the count) -/
+def showFrags (frs : List Bytes) : String :=
+  s!"{frs.length}|" ++ (if frs.isEmpty then "-" else ",".intercalate (frs.map hexField))
+
+def decodeFrags (cnt lst : String) : Option (List Bytes) :=
+  match cnt.toNat? with
+  | none => none
+  | some 0 => if lst == "-" then some [] else none
+  | some n =>
+    let fs := (lst.splitOn ",").map bytesOfHex
+    if fs.length == n && fs.all Option.isSome then some (fs.filterMap id) else none
+
+def isPrefixB : Bytes → Bytes → Bool
+  | [], _ => true
+  | _ :: _, [] => false
+  | a :: as, b :: bs => a == b && isPrefixB as bs
+
+/-- the executable specification of the `Display` clauses on one observation of `dispf`: what the sink was handed
+    are valid `&str`s, they are a prefix of the `to_string(_pretty)` text cut before a rejected fragment, the result
+    is `Ok` exactly when the sink holds the whole text, `Err(fmt::Error)` exactly when the text exceeds the budget -/
+def dispfSpec (budget : Option Nat) (impl : String) : Option String :=
+  match impl.splitOn "|" with
+  | [r, cnt, lst, txt] =>
+    match decodeFrags cnt lst, bytesOfHex txt with
+    | some frs, some text =>
+      let held := frs.flatten
+      if r != "OK" && r != "ERR" then some "C03 Display::fmt returned neither Ok nor fmt::Error"
+      else if !frs.all Spec.Utf8.validUtf8 then some "C03 a fragment handed to write_str (from_utf8_unchecked) is not valid UTF-8"
+      else if !isPrefixB held text then some "C03 the accepted fragments are not a prefix of the to_string text"
+      else if (r == "OK") != (held == text) then some "C03 Display::fmt is Ok although the sink does not hold the whole text, or fmt::Error although it does"
+      else match budget with
+        | none => if r == "OK" then none else some "C03 Display::fmt failed on a sink that never fails"
+        | some m =>
+          if decide (m < held.length) then some "C03 the sink holds more than its budget"
+          else if (r == "ERR") != decide (m < text.length) then some "C03 fmt::Error must be returned exactly when the text exceeds the budget"
+          else none
+    | _, _ => some "C03 malformed observation"
+  | _ => if impl == "PANIC" then some "C03 Display::fmt panicked" else some "C03 malformed observation"
+
+def resName (r : Except Model.Display.FmtError Unit) : String :=
+  match r with
+  | .ok _ => "OK"
+  | .error _ => "ERR"
+
+def dispf : Handler := fun args impl =>
+  match args with
+  | [ve, te, ae, be] =>
+    match decodeJV ve, decodeFloatTable te, (if be == "-" then some none else be.toNat?.map some) with
+    | some v, some tb, some budget =>
+      let ext := extOf tb
+      let alt := ae == "1"
+      let sink := match budget with
+        | none => Model.Display.Sink.unbounded
+        | some m => Model.Display.Sink.budget m
+      let (wr, r) := Model.Display.fmtValue ext v alt sink
+      let text := hexOrErr ((if alt then Model.Display.toStringPretty ext v else Model.Display.toString ext v).map fun t => [t])
+      if wr.ub then { model := "UB:from_utf8_unchecked", spec := dispfSpec budget impl }
+      else { model := s!"{resName r}|{showFrags wr.inner.accepted}|{text}", spec := dispfSpec budget impl }
+    | _, _, _ => bad "decode"
+  | _ => bad "arity"
+
+/-- `Display for Number`: one `write_str` of the number's text, equal to `to_string(&n)` -/
+def dispn : Handler := fun args impl =>
+  match args with
+  | [ve, te] =>
+    match decodeJV ve, decodeFloatTable te with
+    | some (.num n), some tb =>
+      let ext := extOf tb
+      let t := Model.Display.numberText ext n
+      let r := match Model.Display.fmtNumber ext n Model.Display.Sink.unbounded with
+        | .ok s => s!"OK|{showFrags s.accepted}"
+        | .error _ => "ERR|0|-"
+      let spec :=
+        match impl.splitOn "|" with
+        | [r, cnt, lst, txt] =>
+          match decodeFrags cnt lst, bytesOfHex txt with
+          | some frs, some text =>
+            if r != "OK" then some "C03 Display for Number failed on a sink that never fails"
+            else if frs.flatten != text then some "C03 Display for Number differs from to_string(&number)"
+            else if !Number.isNumber text then some "C03 Display for Number is not an RFC 8259 number"
+            else none
+          | _, _ => some "C03 malformed observation"
+        | _ => some "C03 Display for Number panicked or malformed observation"
+      { model := s!"{r}|{hexField t}", spec := spec }
     | _, _ => bad "decode"
   | _ => bad "arity"
 
 def handlers : List (String × Handler) :=
-  [("serc", serc), ("serp", serp), ("serbufs", serbufs), ("serbufx", serbufs), ("disp", disp)]
+  [("serc", serc), ("serp", serp), ("serbufs", serbufs), ("serbufx", serbufs), ("disp", disp),
+   ("dispf", dispf),
+   ("dispn", dispn)]
 
 end SJ.Drv.C03
